@@ -169,6 +169,28 @@ fn check_value(kind: &'static str, is_mask: bool, n: u32, label: &str, out: &mut
             }
         }
     }
+    // a string parameter whose bytes are not UTF-8 (E9 'a' 'b'): refused because the string cannot be decoded, with
+    // whatever follows it untouched
+    if gold_params.iter().any(|p| p == "LiteralString") {
+        let mut bad = words.clone();
+        let marker = u32::from_le_bytes([b'p', b'5', b'0', b'0']);
+        if let Some(pos) = bad.iter().position(|w| *w == marker) {
+            bad[pos] = u32::from_le_bytes([0xE9, b'a', b'b', b'c']);
+            let mut bin = model::header(0x0001_0600, 0, 100);
+            bin.extend_from_slice(&bad);
+            let bytes = model::words_to_bytes(&bin);
+            match guarded(|| parse_collect(&bytes)) {
+                Ok((Err(e), c)) if format!("{:?}", e).contains("DecodeStringFailed") && c.insts.is_empty() => {
+                    *oc.entry("parser_rejects_non_utf8_parameter".into()).or_insert(0) += 1;
+                }
+                got => out.push(viol(
+                    format!("C17:{}::{}:parser-non-utf8-parameter", kind, label),
+                    format!("parser fed {} with the bytes E9 61 62 63 in its string parameter gave {:?} (expected: the string cannot be decoded)", inst.short(), got.map(|(r, c)| (r.map_err(|e| format!("{:?}", e)), c.insts.len()))),
+                    json!({"kind": "c17", "operand_kind": kind, "value": n, "non_utf8_parameter": true}),
+                )),
+            }
+        }
+    }
     // one surplus word
     let mut more = words.clone();
     more.push(777);
